@@ -743,10 +743,44 @@ def canon_ast(fnode, e, at=None, depth=0, _seen=None):
                 return canon_ast(fnode, ast.parse(ast.unparse(v), mode="eval").body, st if st is not None else at, depth + 1, seen | {n.id})
             return n
 
+        def visit_Call(self, n):
+            # inline calls of nested single-expression helpers:  def is_unary(r): return len(r.body) == 1 and ...
+            if isinstance(n.func, ast.Name) and depth <= 4 and not n.keywords and not any(isinstance(a, ast.Starred) for a in n.args):
+                helper = _single_expr_helper(fnode, n.func.id)
+                if helper is not None and len(helper[0]) == len(n.args):
+                    params, body = helper
+                    sub = {p: a for p, a in zip(params, n.args)}
+
+                    class S(ast.NodeTransformer):
+                        def visit_Name(self, m):
+                            if isinstance(m.ctx, ast.Load) and m.id in sub:
+                                return ast.parse(ast.unparse(sub[m.id]), mode="eval").body
+                            return m
+
+                    inl = S().visit(ast.parse(ast.unparse(body), mode="eval").body)
+                    return canon_ast(fnode, inl, at, depth + 1, seen)
+            self.generic_visit(n)
+            return n
+
     tree = ast.parse(ast.unparse(e), mode="eval").body
     # positions of the re-parsed tree are meaningless: loop look-ups use `at`
     out = T().visit(tree)
     return out
+
+
+def _single_expr_helper(fnode, name):
+    """(params, return expression) of a nested helper `def name(p...): return <expr>` / `name = lambda p...: <expr>`"""
+    for n in ast.walk(fnode):
+        if isinstance(n, ast.FunctionDef) and n.name == name and n is not fnode:
+            body = [s for s in n.body if not (isinstance(s, ast.Expr) and isinstance(s.value, ast.Constant))]
+            if len(body) == 1 and isinstance(body[0], ast.Return) and body[0].value is not None and not n.args.vararg and not n.args.kwarg \
+                    and not n.args.defaults and _pure(body[0].value):
+                return [a.arg for a in n.args.args], body[0].value
+        if isinstance(n, ast.Assign) and isinstance(n.value, ast.Lambda) and any(isinstance(t, ast.Name) and t.id == name for t in n.targets):
+            lam = n.value
+            if not lam.args.defaults and not lam.args.vararg and _pure(lam.body):
+                return [a.arg for a in lam.args.args], lam.body
+    return None
 
 
 def cnorm(fnode, e, at=None):
